@@ -64,9 +64,21 @@ func newInt64Literal(val int64) *int64Literal {
 
 func (i *int64Literal) Compare(other LiteralExpr) (int, bool) {
 	if o, ok := other.(*int64Literal); ok {
-		return int(i.int64 - o.int64), true
+		return compareInt64(i.int64, o.int64), true
 	}
 	return 0, false
+}
+
+// compareInt64 returns -1, 0 or 1. Subtracting the operands instead would wrap around
+// when they are more than math.MaxInt64 apart and report the wrong order.
+func compareInt64(a, b int64) int {
+	switch {
+	case a < b:
+		return -1
+	case a > b:
+		return 1
+	}
+	return 0
 }
 
 func (i *int64Literal) Contains(other LiteralExpr) bool {
@@ -481,11 +493,11 @@ func (t *timestampLiteral) Compare(other LiteralExpr) (int, bool) {
 	if o, ok := other.(*timestampLiteral); ok {
 		thisNanos := t.timestamp.AsTime().UnixNano()
 		otherNanos := o.timestamp.AsTime().UnixNano()
-		return int(thisNanos - otherNanos), true
+		return compareInt64(thisNanos, otherNanos), true
 	}
 	if o, ok := other.(*int64Literal); ok {
 		thisNanos := t.timestamp.AsTime().UnixNano()
-		return int(thisNanos - o.int64), true
+		return compareInt64(thisNanos, o.int64), true
 	}
 	return 0, false
 }
